@@ -31,8 +31,8 @@ CHECK = {
     "exhaustive": {"quick": False, "thorough": False},
     "stages": [
         {"name": "mirror", "variant": "asan", "harness": "c20_cbind.cpp",
-         "cases": {"quick": 224, "thorough": 2400},
-         "params": {"extra": {"quick": 40, "thorough": 100}},
+         "cases": {"quick": 224, "thorough": 1600},
+         "params": {"extra": {"quick": 40, "thorough": 60}},
          "env": {"ASAN_OPTIONS": _ASAN},
          "case_timeout": 300},
         {"name": "emptyacc", "variant": "asan", "harness": "c20_cbind.cpp",
